@@ -94,7 +94,14 @@ def cases(draw):
         g = draw(st.sampled_from([secp.N, secp.P, 2 ** 255 - 19, 0xfffe, 1000003]))
         return (k, draw(st.sampled_from(['add', 'sub'])), draw(st.integers(0, g - 1)), draw(st.integers(0, g - 1)), g)
     if k == 'jacobi':
-        return (k, draw(st.one_of(st.integers(0, secp.P - 1), st.sampled_from([0, 1, 2, 3, secp.P - 1, secp.GX]))), draw(st.sampled_from([None, None, secp.P, secp.N, 2 ** 255 - 19, 3 * 5 * 7 * 11, 1000003, 9])))
+        # n: uniform, small, and structured (odd part x power of two with every exponent 0..250 - the algorithm strips twos -, 2^e +- 1);
+        # k: the default (field size) and odd moduli of every residue mod 8, prime and composite
+        odd = draw(st.one_of(st.sampled_from([1, 3, 5, 7, 9, 15, 255, 257, 65537]), st.integers(0, 2 ** 40).map(lambda x: 2 * x + 1)))
+        e = draw(st.integers(0, 250))
+        shaped = draw(st.sampled_from([odd << e, (1 << e) + 1, max(0, (1 << e) - 1), odd << 64, odd << 65, odd << 63, odd << 128])) % (1 << 255)
+        n = draw(st.one_of(st.integers(0, secp.P - 1), st.sampled_from([0, 1, 2, 3, secp.P - 1, secp.GX]), st.just(shaped), st.just(shaped)))
+        kk = draw(st.sampled_from([None, None, None, secp.P, secp.N, 2 ** 255 - 19, 3 * 5 * 7 * 11, 1000003, 9, 3, 5, 7, 11, 13, 17, 2 ** 127 - 1, 2 ** 89 - 1, (2 ** 61 - 1) * 3, 1000003 * 5]))
+        return (k, n, kk)
     if k == 'addr':
         return (k, draw(st.binary(min_size=20, max_size=20)))
     if k == 'pubkeys':
@@ -315,6 +322,8 @@ def check(c, ctx):
             # Euler's criterion cross-check of the oracle for the prime field
             e = pow(n, (secp.P - 1) // 2, secp.P)
             assert (e == 1 and want == 1) or (e == secp.P - 1 and want == -1) or (n % secp.P == 0 and want == 0)
+        if n and (n & -n) >= 1 << 64:
+            ctx.count('jacobi:n-with-64-or-more-trailing-zero-bits')
         args = hx(num_le(n)) + ('' if kk is None else ' ' + hx(num_le(kk)))
         r = tf('jacobi-symbol ' + args)
         expect_eq(c, 'tf jacobi-symbol n=%d k=%s' % (n, kk), out_line(r), str(want))
